@@ -611,7 +611,36 @@ def r05_12(ctx) -> None:
                   construct=f"construct_registry condition in {s.fn.short}")
 
 
+def r05_13(ctx) -> None:
+    """the caller's allow-list reaches the gate on every route: wherever a function with an `algorithms` parameter calls a function
+    with an `algorithms` parameter it passes its own value - or a `registry` that it built from that value"""
+    eng = ctx.eng
+    n = 0
+    for fn in eng.prog.all_functions():
+        if "algorithms" not in fn.params or fn.name == "<module>":
+            continue
+        builds = any(isinstance(x, ast.Call) and any(k.arg == "algorithms" and norm(k.value) == "algorithms" for k in x.keywords) and norm(x.func).endswith("Registry")
+                     for x in fn_nodes(fn))
+        for s in eng.cg.calls_in(fn):
+            if not isinstance(s.node, ast.Call):
+                continue
+            for c in s.callees:
+                if "algorithms" not in c.params or c is fn or (c.name == "__init__"):
+                    continue
+                n += 1
+                a = eng.cg.arg_for_param(s, c, "algorithms")
+                ok = a is not None and norm(a) == "algorithms"
+                if not ok and a is None and builds:
+                    r = eng.cg.arg_for_param(s, c, "registry") if "registry" in c.params else None
+                    ok = r is not None and norm(r) == "registry"
+                ctx.check(ok, "R05.13", fn, s.node, f"{fn.short} -> {c.short}", f"{fn.short} does not hand its `algorithms` allow-list on to {c.short} "
+                          f"({'argument omitted' if a is None else 'passes ' + norm(a)}): the list the caller gave is not the one the gate sees", "algorithms=algorithms (or the registry built from it)",
+                          construct=f"algorithms forwarding {fn.short} -> {c.short}")
+    ctx.count("R05.13", n, 12, "call sites between functions that both take `algorithms`")
+
+
 def run(ctx) -> None:
+    ctx.guard(r05_13)
     ctx.guard(r05_12)
     ctx.guard(r05_10)
     ctx.guard(r05_1)
